@@ -93,7 +93,7 @@ fn lock_dispatch() {
         if open {
             assert!(r.is_ok(), "[O-C02-k-dispatch-ok C02 C04] open store: StoreImpl::dispatch returns Ok");
             assert!(SENDS == 1 && SENT_ACTIONS == 1 && LAST_ACTION == a, "[O-C02-k-dispatch-once C02] open store: exactly one hand-over of exactly the caller's action");
-            assert!(SENT_UNDER_LOCK == 1, "[O-C02-k-dispatch-under-lock C02 C04] the hand-over happens while dispatch_tx is locked");
+            assert!(SENT_UNDER_LOCK == 1, "[O-C02-k-dispatch-under-lock C02 C04 C06] the hand-over happens while dispatch_tx is locked");
         } else {
             assert!(r.is_err(), "[O-C04-k-dispatch-closed C04] closed store: StoreImpl::dispatch returns Err");
             assert!(SENDS == 0, "[O-C04-k-dispatch-closed-nosend C04] closed store: nothing is handed over");
@@ -124,7 +124,7 @@ fn lock_dispatcher_dispatch() {
     unsafe {
         if open {
             assert!(SENDS == 1 && SENT_ACTIONS == 1 && LAST_ACTION == a, "[O-C02-k-ddispatch-once C02] open store: Dispatcher::dispatch hands over exactly the caller's action once");
-            assert!(SENT_UNDER_LOCK == 1, "[O-C02-k-ddispatch-under-lock C02 C04] the hand-over happens while dispatch_tx is locked");
+            assert!(SENT_UNDER_LOCK == 1, "[O-C02-k-ddispatch-under-lock C02 C04 C06] the hand-over happens while dispatch_tx is locked");
             assert!(r.is_ok() == ok, "[O-C06-k-ddispatch-err-iff-refused C06] Dispatcher::dispatch returns Err exactly when the channel refused the action");
         } else {
             assert!(r.is_err(), "[O-C04-k-ddispatch-closed C04] closed store: Dispatcher::dispatch returns Err");
